@@ -386,12 +386,8 @@ def expand (rec : St â†’ Sx â†’ Res) (parent : Option Nat) : Nat â†’ St â†’ Sx â
             match expand rec parent n st2 expanded with
             | .error er => .error er
             | .ok (expanded', st3) =>
-              let st4 := { st3 with env := save }
-              match expanded' with
-              | .list true items => do
-                let (items', st5) â† expandList rec parent n st4 items
-                pure (.list true items', st5)
-              | other => .ok (other, st4)
+              -- the recursive call has expanded the result completely; it is returned as it is
+              .ok (expanded', { st3 with env := save })
       | _ => do
         let (items', st1) â† expandList rec parent n st (h :: tl)
         pure (.list true items', st1)
